@@ -113,6 +113,13 @@ let run_case (suite : string) (r : rd) : unit =
   | "fmtstlb" -> let t = rz r in let fps = rz r in pstr (format_stl_bytes t fps)
   | "parsestl" -> let s = rstr r in let fps = rz r in poptz (parse_stl s fps)
   | "parsestlb" -> let s = rstr r in let fps = rz r in pz (parse_stl_bytes s fps)
+  | "lin" ->
+    let a1 = rz r in let d1 = rz r in let a2 = rz r in let d2 = rz r in
+    plist pz (List.map (fun t -> lin a1 d1 a2 d2 t) (rlist rz r))
+  | "lincorr" ->
+    let a1 = rz r in let d1 = rz r in let a2 = rz r in let d2 = rz r in
+    plist pitem (linear_correction a1 d1 a2 d2 (rlist ritem r))
+  | "fracfloat" -> let k = rint r in let n = rz r in pz (frac_float (nat_of_int k) n)
   | "trimspace" -> pstr (trim_space (rstr r))
   | "atoi" -> poptz (atoi (rstr r))
   | _ -> failwith ("unknown suite " ^ suite)
